@@ -108,8 +108,17 @@ class Check:
         self.exhaustive = True
         self.must_reach = {}
         self.known = self._load_known()
-        self.solver = z3.Solver()
-        self.solver.set("timeout", 10000 if self.tier == "quick" else 60000)
+        self.timeout_ms = 10000 if self.tier == "quick" else 60000
+        self._s = None
+        self._sq = 0
+
+    def _solver(self):
+        if self._s is None or self._sq > 2000:
+            self._s = z3.Solver()
+            self._s.set("timeout", self.timeout_ms)
+            self._sq = 0
+        self._sq += 1
+        return self._s
 
     # -------------------------------------------------------------- known findings
     def _load_known(self):
@@ -148,21 +157,20 @@ class Check:
         for k, ch in I.domains.items():
             v = z3.Int(k)
             dom.append(z3.Or([v == c for c in ch]))
+        from mirsym.lazy import decision_constraints
         pcs = []
         for l in leaves:
-            pcs.append(z3.And(l.pc) if l.pc else z3.BoolVal(True))
+            cs = list(l.pc) + decision_constraints(l)
+            pcs.append(z3.And(cs) if cs else z3.BoolVal(True))
         self.obligations += 1
         self.smt_obligations += 1
-        s = self.solver
-        s.push()
+        s = z3.Solver()
+        s.set("timeout", self.timeout_ms)
         t0 = time.time()
-        try:
-            for d in dom:
-                s.add(d)
-            s.add(z3.Not(z3.Or(pcs)) if pcs else z3.BoolVal(True))
-            r = s.check()
-        finally:
-            s.pop()
+        for d in dom:
+            s.add(d)
+        s.add(z3.Not(z3.Or(pcs)) if pcs else z3.BoolVal(True))
+        r = s.check()
         self.solver_queries += 1
         self.solver_time += time.time() - t0
         if r == z3.unsat:
@@ -197,7 +205,7 @@ class Check:
             self.discharged += 1
             return True, None
         t0 = time.time()
-        s = self.solver
+        s = self._solver()
         s.push()
         try:
             for c in pc:
@@ -218,7 +226,7 @@ class Check:
         return False, model
 
     def model_of(self, pc, extra=None):
-        s = self.solver
+        s = self._solver()
         s.push()
         try:
             for c in pc:
